@@ -105,7 +105,7 @@ def g_oa(args, kw):
         return False
     o = np.asarray(o, float).reshape(-1)
     a = np.asarray(a, float).reshape(-1)
-    return np.linalg.norm(np.cross(o, a)) / (np.linalg.norm(o) * np.linalg.norm(a)) >= 1e-3
+    return np.linalg.norm(np.cross(o, a)) / (np.linalg.norm(o) * np.linalg.norm(a)) >= 3e-13      # non-parallel, however nearly
 
 
 def g_rodrigues(args, kw):
